@@ -23,7 +23,7 @@ def to_json_schema_2019_09(schema: JsonSchema) -> Dict[str, Any]:
     if "prefixItems" in result:
         if "items" in result:
             result["additionalItems"] = result.pop("items")
-        result["items"] = result["prefixItems"]
+        result["items"] = result.pop("prefixItems")
     return result
 
 
